@@ -47,6 +47,12 @@ CLAIMED = {
          "creators, downward-closed cuts, Badger vs in-memory, batch sizes), each run also replayed on the model",
          "partial: order-independence and prefix theorems over whole DAGs not proved; batching clause is a known finding",
          "Coq theorems + refutation witness + DAG re-feeding differential oracle + model replay (per-event and batched)"),
+ "C05": ("Pool discipline of core.addSelfEvent proved in Coq for every sequence of submissions and succeeding / failing insertions (with appends during the insertion): "
+         "accepted transactions = payloads of the node's own events ++ pending pool, in order; exactly one event per transaction; a failed insertion keeps everything "
+         "pending. Tied to the code by predicting every self-event's payload and the pool after every action of real cores in gossip histories with injected store "
+         "failures, truncations and lost responses; the commit side (every committed transaction was submitted, committed once) is evaluated by the oracle",
+         "the hashgraph is abstracted to the insertion outcome in this model; the commit-once statement relies on C04/C07 and is kept as a Definition",
+         "Coq invariant over operation lists + pool-level correspondence + conservation oracle with fault injection"),
 }
 NOT_YET = "check not built yet in this commit (work in progress; to be claimed)"
 NA = {}
